@@ -134,14 +134,14 @@ impl SortingAttr {
                         }
 
                         (Ok(_), Err(_)) => {
-                            if b.parse::<i128>().is_ok() {
+                            if b.parse::<i128>().is_ok_and(|b| b < 0) {
                                 // a > b, because b is negative.
                                 break 'ordering Ordering::Greater;
                             }
                         }
 
                         (Err(_), Ok(_)) => {
-                            if a.parse::<i128>().is_ok() {
+                            if a.parse::<i128>().is_ok_and(|a| a < 0) {
                                 // a < b, because a is negative.
                                 break 'ordering Ordering::Less;
                             }
@@ -156,12 +156,24 @@ impl SortingAttr {
                         }
                     }
 
-                    // Compare as floats.
-                    if let (Ok(a), Ok(b)) = (a.parse::<f64>(), b.parse::<f64>())
-                    {
-                        if let Some(ordering) = a.partial_cmp(&b) {
-                            break 'ordering ordering;
+                    // Compare as floats. NaN is not considered a number.
+                    let a_f64 = a.parse::<f64>().ok().filter(|a| !a.is_nan());
+                    let b_f64 = b.parse::<f64>().ok().filter(|b| !b.is_nan());
+
+                    match (a_f64, b_f64) {
+                        (Some(a), Some(b)) => {
+                            if let Some(ordering) = a.partial_cmp(&b) {
+                                break 'ordering ordering;
+                            }
                         }
+
+                        // Numbers come before all other names. Comparing
+                        // these naturally would make the ordering cyclic
+                        // ("1.5" > "1.10" > "1.5a" > "1.5").
+                        (Some(_), None) => break 'ordering Ordering::Less,
+                        (None, Some(_)) => break 'ordering Ordering::Greater,
+
+                        (None, None) => {}
                     }
 
                     natural_cmp(a, b)
